@@ -289,9 +289,15 @@ Rooted(S) == { t \in S : t[1] \in Roots }
 LogicProgs ==
   { [fam |-> "logic", tree |-> t, carrier |-> cr] : cr \in Carriers, t \in Rooted(UNION { Trees(CarrierDepth, LogOps, r) : r \in Rotations }) }
   \cup { [fam |-> "logic", tree |-> t, carrier |-> "if"] : t \in Rooted(UNION { Trees(LogicDepth, LogOps, r) : r \in Rotations }) }
+(* the joint of the two printers: a comparison (every operator) with possibly negated operands, as the left or the right *)
+(* operand of and / or - depth 3, but only 128 trees (`a == (not b) and c` must keep its group: `not` takes the rest)     *)
+Unary == { <<"atom", "_">>, <<"not", <<"atom", "_">>>> }
+JointTrees == { Lab(t, 0)[1] : t \in { <<lop, <<cop, u1, u2>>, u3>> : lop \in LogOps, cop \in CmpOps, u1 \in Unary, u2 \in Unary, u3 \in Unary }
+                                  \cup { <<lop, u3, <<cop, u1, u2>>>> : lop \in LogOps, cop \in CmpOps, u1 \in Unary, u2 \in Unary, u3 \in Unary } }
 CmpProgs ==
   { [fam |-> "compare", tree |-> t, carrier |-> cr] : cr \in (IF Wide THEN {"if", "ternary"} ELSE {"if"}), t \in Rooted(Trees(2, BinOps, 0)) }
   \cup { [fam |-> "compare", tree |-> t, carrier |-> "if"] : t \in Rooted(Trees(CmpDepth, LogOps \cup {"=="}, 1)) }
+  \cup { [fam |-> "compare", tree |-> t, carrier |-> "if"] : t \in Rooted(JointTrees) }
 IsTree(pg) == pg.fam \in {"logic", "compare", "grown"}
 ASSUME FamiliesKnown == Families \subseteq TagFamilies \cup {"logic", "compare"}
 
